@@ -16,6 +16,9 @@ use crate::errors::{Error, Result};
 use crate::mailbox::{Mailbox, Message};
 use crate::process::{Process, spawn_process};
 use crate::registry::ProcessRegistry;
+#[cfg(edp_verif)]
+use crate::verif::DetDashMap as DashMap;
+#[cfg(not(edp_verif))]
 use dashmap::DashMap;
 use edp_client::control::ControlMessage;
 use edp_client::epmd_client::{EpmdClient, NodeType};
